@@ -40,7 +40,24 @@ type Session struct {
 	AppDone  bool
 	ClosedAt time.Duration
 	PrevOpen bool // the previous connection of this side was still open when this one was handed out
-	Success  bool // every byte of the round was written and read and the final ack exchanged
+	// Closing: this side's application has started to close the connection
+	// (or given up on it after an error it observed).
+	Closing bool
+	// Initiated: ... of its own accord, not in reaction to an error or to
+	// the peer's hang-up.
+	Initiated bool
+	// PrevInUse: when this connection was handed out, in a run without any
+	// relay fault, neither application had started to close the previous
+	// connection: it was taken away from under its users.
+	PrevInUse bool
+	// BrokenEarly: in a run without any relay fault a call of this
+	// session's application failed although neither application had begun
+	// to close the connection.
+	BrokenEarly string
+	// ErrBeforeEnd: a call on the session had failed, or its handshake
+	// had, before the harness began to shut the run down.
+	ErrBeforeEnd bool
+	Success      bool // every byte of the round was written and read and the final ack exchanged
 }
 
 // Scenario of the stack world.
@@ -58,11 +75,23 @@ type Scenario struct {
 	Intruder    string // "", "before", "during", "after": a second client with the original passphrase
 	MaxVer      byte
 	AuthSize    int
-	Goal        func(w *World) bool
-	IdleAfter   time.Duration
-	Final       []func(w *World, x *vrt.Exec)
-	Monitors    []func(w *World)
-	Owns        map[string]bool
+	// Abandon > 0: on its first connection the client application reads
+	// only that many bytes of the server's data and hangs up.
+	Abandon int
+	// Hold: the client application keeps every connection open for this
+	// long after the transfer before the session is wound up; DialTimeout:
+	// every Dial gets a context that expires after this long, like gRPC's
+	// connect timeout.
+	Hold        time.Duration
+	DialTimeout time.Duration
+	// ClientGivesUp: the client makes one connection only and does not
+	// dial again when it fails.
+	ClientGivesUp bool
+	Goal          func(w *World) bool
+	IdleAfter     time.Duration
+	Final         []func(w *World, x *vrt.Exec)
+	Monitors      []func(w *World)
+	Owns          map[string]bool
 }
 
 // Round is one session's application behaviour.
@@ -74,6 +103,9 @@ type Round struct {
 // FaultCfg of the relay.
 type FaultCfg struct {
 	Drop, Kill bool
+	Wipe       bool          // one relay restart: all mailboxes lost
+	Outage     time.Duration // one outage of this length: everything given to the relay meanwhile is lost
+	Down       time.Duration // once, for this long: the relay is unreachable, all calls fail, open streams break
 	Max        int
 }
 
@@ -89,6 +121,17 @@ type World struct {
 	cl  *mailbox.Client
 	cdS *mailbox.ConnData
 	cdC *mailbox.ConnData
+	// One NoiseGrpcConn per side for all of its connections, the way gRPC
+	// uses transport credentials: the same object performs every handshake
+	// and is the net.Conn of every connection.
+	noiseS *mailbox.NoiseGrpcConn
+	noiseC *mailbox.NoiseGrpcConn
+	// abandoned: the client application has hung up on one session in the
+	// middle of the server's data (scenario option abandon=N)
+	abandoned bool
+	wiped     bool // the relay was restarted once (fault option wipe)
+	outaged   bool // the relay had its outage (fault option outage=)
+	downed    bool // the relay had its downtime (fault option down=)
 
 	mu        sync.Mutex
 	sessS     []*Session
@@ -184,6 +227,8 @@ func newWorld(s *vrt.Sched, sc *Scenario) *World {
 		})
 
 	var err error
+	w.noiseS = mailbox.NewNoiseGrpcConn(w.cdS, w.noiseOpts()...)
+	w.noiseC = mailbox.NewNoiseGrpcConn(w.cdC, w.noiseOpts()...)
 	w.srv, err = mailbox.VerifNewServer("relay", w.cdS, func(mailbox.ServerStatus) {}, w.relay)
 	if err != nil {
 		panic(err)
@@ -243,6 +288,20 @@ func (w *World) newSession(side string, round int, list *[]*Session, conn net.Co
 		if prev.Conn != nil && isOpen(prev.Conn) {
 			ss.PrevOpen = true
 		}
+		// Without relay faults a connection only ends because one of the
+		// two applications closes it (sessions pair up by index then).
+		// Without relay faults a connection only ends because one of the
+		// two applications ends it of its own accord (sessions pair up by
+		// index then); everything else is a reaction.
+		if w.faults == 0 && prev.Conn != nil && prev.HsDone && !prev.Initiated {
+			other := w.sessS
+			if side == "server" {
+				other = w.sessC
+			}
+			if prev.Index < len(other) && other[prev.Index].HsDone && !other[prev.Index].Initiated {
+				ss.PrevInUse = true
+			}
+		}
 	}
 	*list = append(*list, ss)
 	return ss
@@ -265,6 +324,44 @@ func (w *World) runApp(ss *Session, out, in []int, outTag, inTag string, closer 
 	for _, n := range in {
 		total += n
 	}
+	if n := w.sc.Abandon; n > 0 && ss.Side == "client" {
+		w.mu.Lock()
+		first := !w.abandoned
+		w.abandoned = true
+		w.mu.Unlock()
+		if first {
+			// The application sends its request, reads the first n bytes
+			// of the answer and hangs up (a cancelled call, a closed
+			// channel): whatever of that answer was already decrypted
+			// belongs to this connection and to no later one.
+			for i, k := range out {
+				b := marker(fmt.Sprintf("%s-%d", outTag, i), k)
+				if m, err := ss.Secured.Write(b); err == nil {
+					w.mu.Lock()
+					ss.Written = append(ss.Written, b[:m]...)
+					w.mu.Unlock()
+				}
+			}
+			buf := make([]byte, n)
+			m, err := ss.Secured.Read(buf)
+			w.mu.Lock()
+			if m > 0 && m <= n {
+				ss.Read = append(ss.Read, buf[:m]...)
+			}
+			if err != nil {
+				ss.ReadErr = err.Error()
+			}
+			ss.HsErr = fmt.Sprintf("abandoned by the application after %d bytes", m)
+			w.reached["session-abandoned-mid-answer"] = true
+			w.mu.Unlock()
+			w.closing(ss, true)
+			_ = ss.Secured.Close()
+			w.mu.Lock()
+			ss.ClosedAt = w.s.Now()
+			w.mu.Unlock()
+			return false
+		}
+	}
 	var wg sync.WaitGroup
 	wg.Add(2)
 	vrt.Go(ss.Side+"-writer", func() {
@@ -278,6 +375,7 @@ func (w *World) runApp(ss *Session, out, in []int, outTag, inTag string, closer 
 			}
 			if err != nil {
 				ss.WriteErr = err.Error()
+				w.ioError(ss, "Write: "+err.Error())
 			} else if k != n {
 				ss.WriteErr = fmt.Sprintf("short write %d of %d without error", k, n)
 			}
@@ -289,7 +387,7 @@ func (w *World) runApp(ss *Session, out, in []int, outTag, inTag string, closer 
 	})
 	vrt.Go(ss.Side+"-reader", func() {
 		defer wg.Done()
-		buf := make([]byte, 70000)
+		buf := make([]byte, 32768) // gRPC's read buffer size
 		for len(ss.Read) < total {
 			n, err := ss.Secured.Read(buf)
 			w.mu.Lock()
@@ -301,6 +399,7 @@ func (w *World) runApp(ss *Session, out, in []int, outTag, inTag string, closer 
 			}
 			if err != nil {
 				ss.ReadErr = err.Error()
+				w.ioError(ss, "Read: "+err.Error())
 			}
 			w.mu.Unlock()
 			if err != nil {
@@ -311,12 +410,17 @@ func (w *World) runApp(ss *Session, out, in []int, outTag, inTag string, closer 
 	vrt.Point("app.join")
 	wg.Wait()
 	vrt.Woke("app.join")
+	if ss.Side == "client" && w.sc.Hold > 0 {
+		time.Sleep(w.sc.Hold)
+		vrt.Point("app.hold")
+	}
 	w.mu.Lock()
 	ss.AppDone = true
 	ok := ss.ReadErr == "" && ss.WriteErr == "" && len(ss.Read) == total
 	w.mu.Unlock()
 	switch {
 	case !ok:
+		w.closing(ss, false)
 		_ = ss.Secured.Close()
 	case closer:
 		// Like a request/response application, the side that hangs up
@@ -328,18 +432,21 @@ func (w *World) runApp(ss *Session, out, in []int, outTag, inTag string, closer 
 		w.mu.Lock()
 		if err != nil {
 			ss.ReadErr = "waiting for the final ack: " + err.Error()
+			w.ioError(ss, ss.ReadErr)
 			ok = false
 		} else if n != 1 || buf[0] != '!' {
 			ss.ReadErr = fmt.Sprintf("final ack: got %d bytes %q", n, buf[:n])
 			ok = false
 		}
 		w.mu.Unlock()
+		w.closing(ss, ok)
 		_ = ss.Secured.Close()
 	default:
 		_, err := ss.Secured.Write([]byte{'!'})
 		if err != nil {
 			w.mu.Lock()
 			ss.WriteErr = "final ack: " + err.Error()
+			w.ioError(ss, ss.WriteErr)
 			ok = false
 			w.mu.Unlock()
 		}
@@ -347,6 +454,7 @@ func (w *World) runApp(ss *Session, out, in []int, outTag, inTag string, closer 
 		// gRPC transport does
 		buf := make([]byte, 16)
 		_, _ = ss.Secured.Read(buf)
+		w.closing(ss, false)
 		_ = ss.Secured.Close()
 	}
 	w.mu.Lock()
@@ -354,6 +462,34 @@ func (w *World) runApp(ss *Session, out, in []int, outTag, inTag string, closer 
 	ss.Success = ok
 	w.mu.Unlock()
 	return ok
+}
+
+// ioError is called (with w.mu held) when an application call on ss failed.
+func (w *World) ioError(ss *Session, what string) {
+	if w.faults != 0 || ss.Closing || ss.BrokenEarly != "" || ss.Side == "intruder" {
+		return
+	}
+	other := w.sessS
+	if ss.Side == "server" {
+		other = w.sessC
+	}
+	if ss.Index < len(other) && (other[ss.Index].Closing || other[ss.Index].Conn == nil) {
+		return
+	}
+	ss.BrokenEarly = what
+}
+
+// closing marks that the application of this session is about to close it.
+// initiative: it does so of its own accord (the exchange is complete, it is
+// abandoning the session), not in reaction to a failed call or to the peer's
+// hang-up.
+func (w *World) closing(ss *Session, initiative bool) {
+	w.mu.Lock()
+	ss.Closing = true
+	if initiative {
+		ss.Initiated = true
+	}
+	w.mu.Unlock()
 }
 
 func (w *World) successes(list []*Session) int {
@@ -401,16 +537,17 @@ func (w *World) serverLoop() {
 				w.mu.Lock()
 				ss.HsErr, ss.ClosedAt = "not needed any more: closed by the application", w.s.Now()
 				w.mu.Unlock()
+				w.closing(ss, true)
 				_ = conn.Close()
 				return
 			}
-			noise := mailbox.NewNoiseGrpcConn(w.cdS, w.noiseOpts()...)
-			sec, _, err := noise.ServerHandshake(conn)
+			sec, _, err := w.noiseS.ServerHandshake(conn)
 			if err != nil {
 				w.mu.Lock()
 				ss.HsErr = err.Error()
 				ss.ClosedAt = w.s.Now()
 				w.mu.Unlock()
+				w.closing(ss, false)
 				_ = conn.Close()
 				return
 			}
@@ -445,11 +582,22 @@ func (w *World) clientSatisfied() bool {
 func (w *World) clientLoop() {
 	rd := w.sc.Round
 	var handlers sync.WaitGroup
-	for attempt := 0; attempt < w.sc.MaxAttempts && !w.stopped(); attempt++ {
+	maxAttempts := w.sc.MaxAttempts
+	if w.sc.ClientGivesUp {
+		// the client application does not reconnect: one connection, and
+		// whatever becomes of it
+		maxAttempts = 1
+	}
+	for attempt := 0; attempt < maxAttempts && !w.stopped(); attempt++ {
 		if attempt > 0 && w.clientSatisfied() {
 			break
 		}
-		conn, err := w.cl.Dial(w.rootCtx, "relay")
+		dctx, dcancel := w.rootCtx, context.CancelFunc(func() {})
+		if w.sc.DialTimeout > 0 {
+			dctx, dcancel = context.WithTimeout(w.rootCtx, w.sc.DialTimeout)
+		}
+		conn, err := w.cl.Dial(dctx, "relay")
+		dcancel()
 		if err != nil {
 			w.mu.Lock()
 			w.sessC = append(w.sessC, &Session{Side: "client", Index: len(w.sessC), At: w.s.Now(), HsErr: "dial: " + err.Error(), ClosedAt: w.s.Now()})
@@ -466,11 +614,11 @@ func (w *World) clientLoop() {
 				w.mu.Lock()
 				ss.HsErr, ss.ClosedAt = "not needed any more: closed by the application", w.s.Now()
 				w.mu.Unlock()
+				w.closing(ss, true)
 				_ = conn.Close()
 				return
 			}
-			noise := mailbox.NewNoiseGrpcConn(w.cdC, w.noiseOpts()...)
-			sec, _, err := noise.ClientHandshake(w.rootCtx, "relay", conn)
+			sec, _, err := w.noiseC.ClientHandshake(w.rootCtx, "relay", conn)
 			if err != nil {
 				w.mu.Lock()
 				ss.HsErr = err.Error()
@@ -478,6 +626,7 @@ func (w *World) clientLoop() {
 				w.mu.Unlock()
 				time.Sleep(time.Second) // gRPC's reconnect back-off
 				vrt.Point("client.backoff")
+				w.closing(ss, false)
 				_ = conn.Close()
 				return
 			}
@@ -543,6 +692,7 @@ func (w *World) intruderAttempt() {
 	}
 	w.authSeenI = append(w.authSeenI, got...)
 	w.mu.Unlock()
+	w.closing(ss, true)
 	_ = conn.Close()
 }
 
@@ -556,13 +706,35 @@ func (w *World) Actions() []vrt.Action {
 			Do: func() { w.relay.deliver(b) }})
 	}
 	f := w.sc.Faults
-	if (f.Drop || f.Kill) && (f.Max == 0 || w.faults < f.Max) && !w.goalOK {
+	if (f.Drop || f.Kill || f.Wipe || f.Outage > 0 || f.Down > 0) && (f.Max == 0 || w.faults < f.Max) && !w.goalOK {
 		if f.Drop {
 			for _, b := range w.relay.deliverable() {
 				b := b
 				acts = append(acts, vrt.Action{Label: "relay-drop:" + b.name, Kind: vrt.KFault, OnlyIdle: true,
 					Do: func() { w.faults++; w.lastFault = w.s.Now(); w.relay.drop(b) }})
 			}
+		}
+		if f.Wipe && !w.wiped && w.relay.boxCount() > 0 {
+			acts = append(acts, vrt.Action{Label: "relay-restart", Kind: vrt.KFault, OnlyIdle: true,
+				Do: func() { w.wiped = true; w.faults++; w.lastFault = w.s.Now(); w.relay.wipe() }})
+		}
+		if f.Outage > 0 && !w.outaged && w.relay.boxCount() > 0 {
+			acts = append(acts, vrt.Action{Label: "relay-outage", Kind: vrt.KFault, OnlyIdle: true,
+				Do: func() {
+					w.outaged = true
+					w.faults++
+					w.lastFault = w.s.Now() + f.Outage
+					w.relay.outage(f.Outage)
+				}})
+		}
+		if f.Down > 0 && !w.downed && w.relay.boxCount() > 0 {
+			acts = append(acts, vrt.Action{Label: "relay-down", Kind: vrt.KFault, OnlyIdle: true,
+				Do: func() {
+					w.downed = true
+					w.faults++
+					w.lastFault = w.s.Now() + f.Down
+					w.relay.down(f.Down)
+				}})
 		}
 		if f.Kill {
 			for _, h := range w.relay.heldStreams() {
@@ -604,7 +776,19 @@ func (w *World) Quiescent(s *vrt.Sched) bool {
 	return false
 }
 
-func (w *World) BeforeDrain(s *vrt.Sched) { w.endAt = s.Now() }
+func (w *World) BeforeDrain(s *vrt.Sched) {
+	w.endAt = s.Now()
+	// What the harness's own shutdown makes the calls return says nothing
+	// about the connection: remember which sessions had reported an error
+	// by now.
+	w.mu.Lock()
+	for _, l := range [][]*Session{w.sessC, w.sessS} {
+		for _, ss := range l {
+			ss.ErrBeforeEnd = ss.HsErr != "" || ss.ReadErr != "" || ss.WriteErr != ""
+		}
+	}
+	w.mu.Unlock()
+}
 
 func (w *World) Drain(s *vrt.Sched) {
 	w.rootStop()
